@@ -78,6 +78,8 @@ type Options struct {
 	Exec          *hx.Exec
 	Seq           *hx.Seq
 	KeySeed       byte // signing key of an aggregator (default 1)
+	// CustomPayload: use a non-default signature payload provider (header bytes + a suffix)
+	CustomPayload bool
 	// MakeSeq builds the sequencing layer on the node's datastore (default: the scripted double)
 	MakeSeq func(ds *hx.LogDS) (coresequencer.Sequencer, error)
 }
@@ -159,8 +161,12 @@ func New(o Options) (*Env, error) {
 		sq = rs
 		e.RealSeq = rs
 	}
+	mo := block.DefaultManagerOptions()
+	if o.CustomPayload {
+		mo.SignaturePayloadProvider = CustomPayloadProvider
+	}
 	m, err := block.NewManager(context.Background(), sg, cfg, e.Gen, e.Store, e.Exec, sq, e.DA, logging.Logger("verif"), nil, nil,
-		e.HB, e.DB, block.NopMetrics(), -1, 0, block.DefaultManagerOptions())
+		e.HB, e.DB, block.NopMetrics(), -1, 0, mo)
 	if err != nil {
 		return e, err
 	}
@@ -186,7 +192,16 @@ func H8(b []byte) string {
 	return hx.Hex(b)
 }
 
-// SigClass classifies a signature against a header payload and the genesis proposer key.
+// CustomPayloadProvider: the header bytes followed by a domain-separation suffix.
+func CustomPayloadProvider(h *types.Header) ([]byte, error) {
+	b, err := h.MarshalBinary()
+	if err != nil {
+		return nil, err
+	}
+	return append(b, []byte("/verif-custom-payload")...), nil
+}
+
+// SigClass classifies a signature against a header payload (default or custom provider) and the proposer key.
 func SigClass(pub crypto.PubKey, h *types.Header, sig []byte) string {
 	if len(sig) == 0 {
 		return "empty"
@@ -195,9 +210,13 @@ func SigClass(pub crypto.PubKey, h *types.Header, sig []byte) string {
 	if err != nil {
 		return "invalid"
 	}
-	ok, err := pub.Verify(pl, sig)
-	if err == nil && ok {
+	if ok, err := pub.Verify(pl, sig); err == nil && ok {
 		return "valid"
+	}
+	if cp, err := CustomPayloadProvider(h); err == nil {
+		if ok, err := pub.Verify(cp, sig); err == nil && ok {
+			return "valid"
+		}
 	}
 	return "invalid"
 }
